@@ -16,9 +16,10 @@ COMMON = ("Trusted: Coq 8.16.1 kernel + vm_compute (no native_compute); no Axiom
 def load_checks():
     """one harness/props/Cxx.meta.json per claimed property: {text, note, technique, design}"""
     out = {}
+    ready = set(open(os.path.join(VERIF, "tools", "ready.txt")).read().split())
     for pid in ALL:
         p = os.path.join(VERIF, "harness", "props", pid + ".meta.json")
-        if os.path.exists(p):
+        if os.path.exists(p) and pid in ready:
             out[pid] = json.load(open(p))
     return out
 
